@@ -282,8 +282,9 @@ class TMGRSchedulingComponent(rpu.ClientComponent):
                     self._pilots[pid]['role'] = REMOVED
                     self._log.debug('removed pilot: %s', self._pilots[pid])
 
-            # let the scheduler know
-            self.remove_pilots(pids)
+                # let the scheduler know - in the same critical section, so
+                # that no task is bound to the pilot in between
+                self.remove_pilots(pids)
 
 
         elif cmd == 'cancel_tasks':
